@@ -322,10 +322,9 @@ NEGATIVE: list[Neg] = [
      lambda s: patched(s, CLIENT, ("        self._set_name_from_device(info.name)\n",
                                    "        self._set_name_from_device(info.name)\n        APIVersion.from_pb(resp)\n")),
      _c14, [("C14/client.APIClient.device_info/from_pb-use=APIVersion/paired", "unsupported")], []),
-    ("C14 positive control: UNLOCKED = 2 removes every LockState refutation",
-     lambda s: patched(s, MODEL, ("    UNLOCKED = 3\n", "    UNLOCKED = 2\n")),
-     _c14, [], ["C14/model.LockState/wire-value=2/exactly-one-member", "C14/model.LockState/member=UNLOCKED/no-alias",
-                "C14/model.LockState/member=UNLOCKED/name-matches-wire"]),
+    ("C14 control (finding F6, repaired in a18ec81): UNLOCKED = 3 again aliases JAMMED and loses wire value 2",
+     lambda s: patched(s, MODEL, ("    UNLOCKED = 2\n", "    UNLOCKED = 3\n")),
+     _c14, [("C14/model.LockState/wire-value=2/exactly-one-member", "refuted")], []),
 ]
 
 
